@@ -652,3 +652,5 @@ pub proof fn lemma_shown_is_paid(st0: St, sm: St, d: Addr, v: Seq<char>, now: Ti
         assert(credited(st0, sm, d, v, i0.stake.u as nat, nr));
     }
 }
+
+//@ canary staking_axioms lemma_ns_facts(); axiom_addr_key_laws(); let a = Addr { s: str_of("alice"@) }; let b = Addr { s: str_of("bob"@) }; axiom_addr_bytes(a); axiom_addr_bytes(b); axiom_addr_len(a); axiom_str_bytes_inj(a.s@, b.s@); axiom_addr_ext(a, b); lemma_keys_disjoint(a, "v"@, "w"@); axiom_str_bytes_ascii("v"@); axiom_cw_roundtrip(Shares { stake: Decimal { atomics: 1 }, rewards: Decimal { atomics: 2 } }); lemma_reward_zero_dt(5, 7, 9); lemma_gross_bound(1000, 100_000_000_000_000_000, 1_000_000_000); lemma_net_bound(1000, 100_000_000_000_000_000, 0, 1_000_000_000);
